@@ -19,7 +19,7 @@ BOUNDS = {
 ASSUMPTIONS = ['imports between user modules are listed but unused unless stated, so a failed dependency does not cascade',
                'component failures are signalled with PySmiError subclasses (the property covers only those)']
 
-TEXT_KINDS = ['empty', 'comment', 'lexerr', 'synerr', 'truncated', 'dupsym', 'unktype', 'badimport', 'twomods', 'misnamed', 'bundle']
+TEXT_KINDS = ['empty', 'comment', 'lexerr', 'synerr', 'truncated', 'dupsym', 'unktype', 'badrange', 'badimport', 'twomods', 'misnamed', 'bundle']
 
 
 def graphs(n):
